@@ -324,7 +324,7 @@ def run(R):
             R.numeric.append(dict(obligation=f'{name} {label}', residual=worst))
             R.ob(f'solutions.{name}:{label}', name, 'numeric-ok' if ok else 'refuted', 'float64-jets', secs / (len(MODULES) * max(len(out), 1)),
                  f'worst relative residual {worst:.2e}' + ('' if ok else '; ' + detail), None if ok else [label],
-                 bounded=f'numeric: {npts} points', replay=(lambda o, name=name.split('[')[0], label=label: native_replay(name, label, o)))
+                 bounded=f'numeric: {npts} points', replay=(lambda o, name=name, label=label: native_replay(name, label, o)))
     R.extra['explanation'] = ('numeric evidence: the real solution modules evaluated on float64 Taylor jets (exact differentiation, binary64 values) at '
                               f'{npts} random points per module; obligations (a)-(d) with residual tolerance {TOL}; not counted as proved')
 
@@ -352,8 +352,21 @@ def constraint_replay(name, real, at):
 
 def native_replay(name, label, o=None):
     """float64 finite-difference replay on the real module (no jets): centred differences in t with step 1e-4 relative"""
+    import re as _re0
+    m0 = _re0.match(r'(\w+)\[(\w+)=([^\]]+)\]$', name)
+    if m0:
+        # an obligation with one of the module's free parameters moved off its default: the replay sets the same value
+        name, par, val = m0.group(1), m0.group(2), float(m0.group(3))
+        real = importlib.import_module(f'aurel.solutions.{name}')
+        oldv = getattr(real, par)
+        setattr(real, par, val)
+        try:
+            bad, txt = native_replay(name, label, o)
+        finally:
+            setattr(real, par, oldv)
+        return bad, f'with aurel.solutions.{name}.{par} = {val} (default {oldv}): ' + txt
     real = importlib.import_module(f'aurel.solutions.{name}')
-    if label.startswith('(c) ') and o is not None and hasattr(real, 'Tdown4'):
+    if label.startswith(('(c) ', '(d) ')) and o is not None and hasattr(real, 'Tdown4'):
         import ast as _ast
         import re as _re
         m = _re.search(r"at (\{[^}]*\})", getattr(o, 'detail', '') or '')
